@@ -1606,46 +1606,46 @@ class Engine:
             L = fr.locals
             if op == 'load':
                 _, dst, t, a = ins
-                addr = self.ev(st, fr, PTR, a)
+                addr = (L[a[1]] if a[0] == 'l' else (a[1] if a[0] == 'c' else self.ev(st, fr, PTR, a)))
                 if is_sym(addr):
                     L[dst] = self.sym_load(st, t, addr)
                 else:
                     L[dst] = self.load(st, t, addr)
             elif op == 'store':
                 _, _, t, v, a = ins
-                addr = self.ev(st, fr, PTR, a)
-                val = self.ev(st, fr, t, v)
+                addr = (L[a[1]] if a[0] == 'l' else (a[1] if a[0] == 'c' else self.ev(st, fr, PTR, a)))
+                val = (L[v[1]] if v[0] == 'l' else (v[1] if v[0] == 'c' else self.ev(st, fr, t, v)))
                 if is_sym(addr):
                     self.sym_store(st, t, val, addr, worklist)
                 else:
                     self.store(st, t, val, addr)
             elif op == 'gep':
                 _, dst, bt, base, idx = ins
-                b = self.ev(st, fr, PTR, base)
-                L[dst] = self.gep(bt, b, [(it, self.ev(st, fr, it, iv)) for it, iv in idx])
+                b = (L[base[1]] if base[0] == 'l' else (base[1] if base[0] == 'c' else self.ev(st, fr, PTR, base)))
+                L[dst] = self.gep(bt, b, [(it, (L[iv[1]] if iv[0] == 'l' else (iv[1] if iv[0] == 'c' else self.ev(st, fr, it, iv)))) for it, iv in idx])
             elif op == 'call':
                 _, dst, rt, callee, args = ins
-                av = [self.ev(st, fr, t, a) for t, a in args]
+                av = [(L[a[1]] if a[0] == 'l' else (a[1] if a[0] == 'c' else self.ev(st, fr, t, a))) for t, a in args]
                 self.call(st, fr, dst, rt, callee, av)
             elif op == 'alloca':
                 _, dst, t, n, align = ins
-                cnt = self.ev(st, fr, ('i', 64), n)
+                cnt = (L[n[1]] if n[0] == 'l' else (n[1] if n[0] == 'c' else self.ev(st, fr, ('i', 64), n)))
                 a = self.alloc_stack(st, tc.sizeof(t) * cnt, align, dst)
                 L[dst] = a
             elif op == 'extractvalue':
                 _, dst, t, a, idx = ins
-                v = self.ev(st, fr, t, a)
+                v = (L[a[1]] if a[0] == 'l' else (a[1] if a[0] == 'c' else self.ev(st, fr, t, a)))
                 for i in idx:
                     v = v[i] if v is not None else None
                 L[dst] = v
             elif op == 'insertvalue':
                 _, dst, t, a, et, e, idx = ins
-                v = self.ev(st, fr, t, a)
-                ev_ = self.ev(st, fr, et, e)
+                v = (L[a[1]] if a[0] == 'l' else (a[1] if a[0] == 'c' else self.ev(st, fr, t, a)))
+                ev_ = (L[e[1]] if e[0] == 'l' else (e[1] if e[0] == 'c' else self.ev(st, fr, et, e)))
                 L[dst] = self.insert(v, idx, ev_, t)
             elif op == 'br':
                 _, _, c, a, b = ins
-                cv = self.ev(st, fr, ('i', 1), c)
+                cv = (L[c[1]] if c[0] == 'l' else (c[1] if c[0] == 'c' else self.ev(st, fr, ('i', 1), c)))
                 if is_sym(cv):
                     cv = boolv(cv)
                     mt, mf = self.feasible_both(st, cv)
@@ -1694,16 +1694,16 @@ class Engine:
                 fr.prev = fr.block; fr.block = ins[2]; fr.idx = 0
             elif op == 'icmp':
                 _, dst, pred, t, a, b = ins
-                L[dst] = self.icmp(pred, t, self.ev(st, fr, t, a), self.ev(st, fr, t, b))
+                L[dst] = self.icmp(pred, t, (L[a[1]] if a[0] == 'l' else (a[1] if a[0] == 'c' else self.ev(st, fr, t, a))), (L[b[1]] if b[0] == 'l' else (b[1] if b[0] == 'c' else self.ev(st, fr, t, b))))
             elif op == 'bin':
                 _, dst, bop, t, a, b = ins
-                L[dst] = self.binop(bop, t, self.ev(st, fr, t, a), self.ev(st, fr, t, b))
+                L[dst] = self.binop(bop, t, (L[a[1]] if a[0] == 'l' else (a[1] if a[0] == 'c' else self.ev(st, fr, t, a))), (L[b[1]] if b[0] == 'l' else (b[1] if b[0] == 'c' else self.ev(st, fr, t, b))))
             elif op == 'cast':
                 _, dst, cop, t, a, tt = ins
-                L[dst] = self.do_cast(cop, t, self.ev(st, fr, t, a), tt)
+                L[dst] = self.do_cast(cop, t, (L[a[1]] if a[0] == 'l' else (a[1] if a[0] == 'c' else self.ev(st, fr, t, a))), tt)
             elif op == 'ret':
                 _, _, t, v = ins
-                rv = self.ev(st, fr, t, v) if v is not None else None
+                rv = (L[v[1]] if v[0] == 'l' else (v[1] if v[0] == 'c' else self.ev(st, fr, t, v))) if v is not None else None
                 sb = st.sbases
                 if len(sb) > fr.nsb:
                     mem = st.mem
@@ -1719,16 +1719,16 @@ class Engine:
                     caller.locals[fr.dst] = rv
             elif op == 'select':
                 _, dst, ct, c, t, a, b = ins
-                cv = self.ev(st, fr, ct, c)
-                av = self.ev(st, fr, t, a)
-                bv_ = self.ev(st, fr, t, b)
+                cv = (L[c[1]] if c[0] == 'l' else (c[1] if c[0] == 'c' else self.ev(st, fr, ct, c)))
+                av = (L[a[1]] if a[0] == 'l' else (a[1] if a[0] == 'c' else self.ev(st, fr, t, a)))
+                bv_ = (L[b[1]] if b[0] == 'l' else (b[1] if b[0] == 'c' else self.ev(st, fr, t, b)))
                 if ct[0] == 'vec':
                     L[dst] = [self.select1(x, y, z, t[2]) for x, y, z in zip(cv, av, bv_)]
                 else:
                     L[dst] = self.select1(cv, av, bv_, t)
             elif op == 'switch':
                 _, _, t, v, dflt, cases = ins
-                val = self.ev(st, fr, t, v)
+                val = (L[v[1]] if v[0] == 'l' else (v[1] if v[0] == 'c' else self.ev(st, fr, t, v)))
                 if is_sym(val):
                     val = z3.simplify(val)
                 if is_sym(val) and not z3.is_bv_value(val):
@@ -1781,7 +1781,7 @@ class Engine:
                 _, dst, t, inc = ins
                 for v, lbl in inc:
                     if lbl == fr.prev:
-                        L[dst] = self.ev(st, fr, t, v)
+                        L[dst] = (L[v[1]] if v[0] == 'l' else (v[1] if v[0] == 'c' else self.ev(st, fr, t, v)))
                         break
                 else:
                     raise Unsupported('phi: no incoming for %s' % fr.prev)
@@ -1791,10 +1791,10 @@ class Engine:
                 pass
             elif op == 'cmpxchg':
                 _, dst, t, a, e, n = ins
-                addr = self.ev(st, fr, PTR, a)
+                addr = (L[a[1]] if a[0] == 'l' else (a[1] if a[0] == 'c' else self.ev(st, fr, PTR, a)))
                 old = self.load(st, t, addr)
-                ev_ = self.ev(st, fr, t, e)
-                nv = self.ev(st, fr, t, n)
+                ev_ = (L[e[1]] if e[0] == 'l' else (e[1] if e[0] == 'c' else self.ev(st, fr, t, e)))
+                nv = (L[n[1]] if n[0] == 'l' else (n[1] if n[0] == 'c' else self.ev(st, fr, t, n)))
                 if is_sym(old) or is_sym(ev_):
                     raise Unsupported('symbolic cmpxchg')
                 if old == ev_:
@@ -1804,9 +1804,9 @@ class Engine:
                     L[dst] = [old, 0]
             elif op == 'atomicrmw':
                 _, dst, rop, t, a, v = ins
-                addr = self.ev(st, fr, PTR, a)
+                addr = (L[a[1]] if a[0] == 'l' else (a[1] if a[0] == 'c' else self.ev(st, fr, PTR, a)))
                 old = self.load(st, t, addr)
-                val = self.ev(st, fr, t, v)
+                val = (L[v[1]] if v[0] == 'l' else (v[1] if v[0] == 'c' else self.ev(st, fr, t, v)))
                 if rop == 'xchg':
                     nv = val
                 else:
@@ -1815,22 +1815,22 @@ class Engine:
                 L[dst] = old
             elif op == 'extractelement':
                 _, dst, t, a, i = ins
-                L[dst] = self.ev(st, fr, t, a)[self.ev(st, fr, ('i', 64), i)]
+                L[dst] = (L[a[1]] if a[0] == 'l' else (a[1] if a[0] == 'c' else self.ev(st, fr, t, a)))[(L[i[1]] if i[0] == 'l' else (i[1] if i[0] == 'c' else self.ev(st, fr, ('i', 64), i)))]
             elif op == 'insertelement':
                 _, dst, t, a, e, i = ins
-                v = list(self.ev(st, fr, t, a))
-                v[self.ev(st, fr, ('i', 64), i)] = self.ev(st, fr, t[2], e)
+                v = list((L[a[1]] if a[0] == 'l' else (a[1] if a[0] == 'c' else self.ev(st, fr, t, a))))
+                v[(L[i[1]] if i[0] == 'l' else (i[1] if i[0] == 'c' else self.ev(st, fr, ('i', 64), i)))] = (L[e[1]] if e[0] == 'l' else (e[1] if e[0] == 'c' else self.ev(st, fr, t[2], e)))
                 L[dst] = v
             elif op == 'shufflevector':
                 _, dst, t, a, b, mt, m = ins
-                av = self.ev(st, fr, t, a)
-                bv_ = self.ev(st, fr, t, b)
-                mv = self.ev(st, fr, mt, m)
+                av = (L[a[1]] if a[0] == 'l' else (a[1] if a[0] == 'c' else self.ev(st, fr, t, a)))
+                bv_ = (L[b[1]] if b[0] == 'l' else (b[1] if b[0] == 'c' else self.ev(st, fr, t, b)))
+                mv = (L[m[1]] if m[0] == 'l' else (m[1] if m[0] == 'c' else self.ev(st, fr, mt, m)))
                 both = list(av) + list(bv_)
                 L[dst] = [both[i] if i is not None else None for i in mv]
             elif op == 'freeze':
                 _, dst, t, a = ins
-                v = self.ev(st, fr, t, a)
+                v = (L[a[1]] if a[0] == 'l' else (a[1] if a[0] == 'c' else self.ev(st, fr, t, a)))
                 L[dst] = 0 if v is None else v
             else:
                 raise Unsupported('instruction ' + op)
